@@ -127,6 +127,33 @@ impl BoundSet {
         true
     }
 
+    /// The lowest version this set is satisfied by. The candidates are the
+    /// lower bound itself or its immediate successors, in increasing order.
+    fn min_version(&self) -> Option<Version> {
+        use Bound::*;
+        use Predicate::*;
+
+        let candidates = match self.lower.as_ref() {
+            Lower(Including(v)) => vec![v.clone()],
+            Lower(Excluding(v)) if v.is_prerelease() => {
+                let mut next = v.clone();
+                next.pre_release.push(Identifier::Numeric(0));
+                vec![next]
+            }
+            Lower(Excluding(v)) => {
+                let mut next = v.clone();
+                next.patch += 1;
+                let mut next_pre = next.clone();
+                next_pre.pre_release.push(Identifier::Numeric(0));
+                vec![next_pre, next]
+            }
+            Lower(Unbounded) => vec![Version::from((0, 0, 0, 0)), Version::from((0, 0, 0))],
+            Upper(_) => vec![],
+        };
+
+        candidates.into_iter().find(|v| self.satisfies(v))
+    }
+
     fn allows_all(&self, other: &BoundSet) -> bool {
         self.lower <= other.lower && other.upper <= self.upper
     }
@@ -506,38 +533,7 @@ impl Range {
     Return the lowest [Version] that can possibly match the given range.
     */
     pub fn min_version(&self) -> Option<Version> {
-        if let Some(min_bound) = self.0.iter().map(|range| &range.lower).min() {
-            let min_bound = min_bound.as_ref();
-            match min_bound {
-                Bound::Lower(pred) => match pred {
-                    Predicate::Including(v) => Some(v.clone()),
-                    Predicate::Excluding(v) => {
-                        let mut v = v.clone();
-                        if v.is_prerelease() {
-                            v.pre_release.push(Identifier::Numeric(0))
-                        } else {
-                            v.patch += 1;
-                        }
-                        Some(v)
-                    }
-                    Predicate::Unbounded => {
-                        let mut zero = Version::from((0, 0, 0));
-                        if self.satisfies(&zero) {
-                            return Some(zero);
-                        }
-
-                        zero.pre_release.push(Identifier::Numeric(0));
-                        if self.satisfies(&zero) {
-                            return Some(zero);
-                        }
-                        None
-                    }
-                },
-                Bound::Upper(_) => None,
-            }
-        } else {
-            None
-        }
+        self.0.iter().filter_map(|set| set.min_version()).min()
     }
 }
 
